@@ -113,6 +113,8 @@ func init() {
 	reg("telemetry", Wrap, 2, nil, ix(0, 1), true, 2)
 	reg("domain", Wrap, 1, nil, ix(0), true, 2)
 	reg("issuelink", Wrap, 2, nil, ix(0, 1), true, 2)
+	reg("issuelinkd", Wrap, 1, nil, ix(0), true, 1) // detail only, no URL
+	reg("issuelinku", Wrap, 1, nil, ix(0), true, 1) // URL only, no detail
 	reg("tags", Wrap, 2, ix(1), ix(0), true, 2)
 	reg("tagsafe", Wrap, 2, nil, ix(0), true, 2) // a Safe() tag value (neutral: C12 enumerates tag keys, not values), a nil value, an int value
 	reg("assertion", Wrap, 0, nil, nil, true, 2)
@@ -321,6 +323,10 @@ func Build1(n *Node, m Built) error {
 		return errors.WithDomain(kids[0], errors.NamedDomain(S[0]))
 	case "issuelink":
 		return errors.WithIssueLink(kids[0], errors.IssueLink{IssueURL: S[0], Detail: S[1]})
+	case "issuelinkd":
+		return errors.WithIssueLink(kids[0], errors.IssueLink{Detail: S[0]})
+	case "issuelinku":
+		return errors.WithIssueLink(kids[0], errors.IssueLink{IssueURL: S[0]})
 	case "tags":
 		ctx := context.Background()
 		ctx = logtags.AddTag(ctx, S[0], S[1])
